@@ -625,6 +625,13 @@ fn mutation_catalog(honest: &Summary, every_bit: bool) -> Vec<(Target, Mutn)> {
                     out.push((t.clone(), Mutn::FlipBit(off, bit)));
                 }
             }
+        } else {
+            // the framing bytes no field move touches: start and end of the payload's root structure
+            for off in [pay, d.bytes.len() - 1] {
+                for bit in [0u8, 7] {
+                    out.push((t.clone(), Mutn::FlipBit(off, bit)));
+                }
+            }
         }
         // header: message counter, exchange flags, opcode, exchange id
         let p = parse_plain(&d.bytes).unwrap();
